@@ -18,6 +18,7 @@ type SV struct {
 }
 
 type SpecEnv struct {
+	cur   map[string]string // heaps of the enclosing (post) state while inside old(...); used by now(...)
 	g     *Gen
 	st    *State            // state receiving nothing; used for heap lookups through shadow
 	heaps map[string]string // heaps to read
@@ -280,6 +281,13 @@ func (e *SpecEnv) declUfun(pf *PureFn) (string, types.Type) {
 	n := sym("U:" + pf.Name)
 	if !e.g.declared[n] {
 		var ps []string
+		for _, h := range pf.Reads {
+			srt, ok := e.g.sortOfHeapName(h)
+			if !ok {
+				specFail("ufun %s reads unknown heap %s", pf.Name, h)
+			}
+			ps = append(ps, srt)
+		}
 		for _, p := range pf.Params {
 			pt, err := e.g.P.lookupType(p.Typ, pf.Pkg)
 			if err != nil {
@@ -315,6 +323,17 @@ func (e *SpecEnv) tr(x *Expr) SV {
 		n.heaps = e.old
 		if n.heaps == nil {
 			specFail("old() used where no pre-state exists")
+		}
+		if n.cur == nil {
+			n.cur = e.heaps
+		}
+		return n.tr(x.Args[0])
+	case "now":
+		// now(e) inside old(...): e is evaluated in the current state
+		n := *e
+		if e.cur != nil {
+			n.heaps = e.cur
+			n.cur = nil
 		}
 		return n.tr(x.Args[0])
 	case "cast":
@@ -380,7 +399,26 @@ func (e *SpecEnv) tr(x *Expr) SV {
 	case "forall", "exists":
 		extra := map[string]SV{}
 		var bs, guards []string
+		var stateHeaps map[string]string
 		for _, b := range x.Binders {
+			if b.Typ != nil && b.Typ.Name == "state" && b.Typ.Pkg == "" && !b.Typ.Star && !b.Typ.Slice && b.Typ.Map == nil {
+				// a 'state' binder quantifies over the contents of every heap that state-reading ufuns depend on
+				stateHeaps = make(map[string]string, len(e.heaps))
+				for k, v := range e.heaps {
+					stateHeaps[k] = v
+				}
+				for _, h := range sortedKeys(e.g.DB.StateHeaps) {
+					srt, ok := e.g.sortOfHeapName(h)
+					if !ok {
+						specFail("state binder: unknown heap %s", h)
+					}
+					e.shadow().cur(h, srt) // make sure the heap is declared
+					hn := sym(fmt.Sprintf("q.%s.%s.%d", b.Name, h, e.qd))
+					bs = append(bs, fmt.Sprintf("(%s %s)", hn, srt))
+					stateHeaps[h] = hn
+				}
+				continue
+			}
 			t, err := e.g.P.lookupType(b.Typ, e.pkg)
 			if err != nil {
 				specFail("%v", err)
@@ -401,6 +439,9 @@ func (e *SpecEnv) tr(x *Expr) SV {
 		}
 		inner := e.withVars(extra)
 		inner.qd = e.qd + 1
+		if stateHeaps != nil {
+			inner.heaps = stateHeaps
+		}
 		body := inner.tr(x.Args[0])
 		if body.V.K != KBool {
 			specFail("quantifier body is not boolean")
@@ -552,6 +593,10 @@ func (e *SpecEnv) call(x *Expr) SV {
 	if pf.Body == nil {
 		n, rt := e.declUfun(pf)
 		var as []string
+		for _, h := range pf.Reads {
+			srt, _ := e.g.sortOfHeapName(h)
+			as = append(as, e.shadow().cur(h, srt))
+		}
 		for _, a := range x.Args {
 			as = append(as, sh.toScalar(e.tr(a).V).T)
 		}
